@@ -17,6 +17,7 @@ type MutEnv struct {
 	OtherIssuer []byte          // raw issuer Name of an unrelated certificate
 	AltKey      *rsa.PrivateKey // a key that is not the signer's
 	NewContent  []byte          // replacement content octets
+	Foreign     []byte          // a valid signature by somebody else over other (encapsulated) content
 }
 
 func leaves(n *der.Node, out *[]*der.Node) {
@@ -49,7 +50,8 @@ var CMSMutationClasses = []string{
 	"certs_drop", "certs_replace", "certs_add",
 	"issuer_change", "serial_change", "digest_attr_rewrite", "digest_attr_rewrite_and_content",
 	"sig_flip", "sig_by_other_key", "digestalg_change", "sigalg_change", "null_params_toggle",
-	"second_signer", "outer_strip", "outer_add", "attrs_retag_set", "attrs_remove_all",
+	"second_signer", "outer_strip", "outer_add", "attrs_retag_set", "attrs_remove_all", "attrs_empty",
+	"foreign_content_and_signer", "foreign_content_and_signer",
 }
 
 // MutateCMS derives an adversarial blob from a parsable SignedData. It returns
@@ -137,6 +139,37 @@ func MutateCMS(t *rapid.T, blob []byte, env MutEnv) ([]byte, string) {
 			}
 		}
 		s.Node.Children = keep
+	case "attrs_empty":
+		if s.Attrs == nil {
+			return nil, na
+		}
+		s.Attrs.Children, s.Attrs.Opaque, s.Attrs.Content = []*der.Node{}, false, nil
+	case "foreign_content_and_signer":
+		// somebody else's valid signature over other content, with the victim's SignerInfo added beside the foreign one
+		if env.Foreign == nil {
+			return nil, na
+		}
+		fp, err := der.ParseOne(env.Foreign, der.Options{})
+		if err != nil {
+			return nil, na
+		}
+		froot := fp.Clone()
+		fsd, err := cms.Locate(froot)
+		if err != nil || fsd.EContent0 == nil {
+			return nil, na
+		}
+		victim := s.Node.Clone()
+		if rapid.Bool().Draw(t, "victimfirst") {
+			fsd.SignerSet.Children = append([]*der.Node{victim}, fsd.SignerSet.Children...)
+		} else {
+			fsd.SignerSet.Children = append(fsd.SignerSet.Children, victim)
+		}
+		if sd.Certs != nil && fsd.Certs != nil && !fsd.Certs.Opaque && !sd.Certs.Opaque {
+			for _, c := range sd.Certs.Children {
+				fsd.Certs.Children = append(fsd.Certs.Children, c.Clone())
+			}
+		}
+		return froot.Encode(), class
 	case "attrs_retag_set":
 		if s.Attrs == nil {
 			return nil, na
